@@ -15,6 +15,7 @@ contract(
         " and forall(lambda j: implies(0 <= j and j < k, not map_has(self._maps[j], key))))",
         "self._maps == old(self._maps)",
     ],
+    returns=Any_,
     raises={"KeyError": "forall(lambda j: implies(0 <= j and j < len(self._maps), not map_has(self._maps[j], key)))"},
 )
 
@@ -24,6 +25,7 @@ contract(
     params={"self": CM, "namespace": Any_},
     post=["self._maps == [namespace] + old(self._maps)"],
     raises={},
+    modifies=["self._maps"],
 )
 
 contract(
@@ -33,6 +35,8 @@ contract(
     pre=["len(self._maps) > 0"],
     post=["[result] + self._maps == old(self._maps)"],
     raises={},
+    returns=Any_,
+    modifies=["self._maps"],
 )
 
 contract(
@@ -41,6 +45,7 @@ contract(
     params={"self": CM},
     post=["result == len(self._maps)"],
     raises={},
+    returns=Int,
 )
 
 contract(
@@ -52,5 +57,6 @@ contract(
     post=[
         "implies(forall(lambda j: implies(0 <= j and j < len(self._maps), not map_has(self._maps[j], key))), result == default)",
     ],
+    returns=Any_,
     raises={},
 )
